@@ -1,7 +1,7 @@
 """C01: generated code behaves like the interpreter at -O0..-O3, on well-defined programs constructed and
 executed by the TLA+ machine (spec/MIRProg.tla + MIRSem.tla).  The specification decides which programs are
 well defined and what they compute; the property's oracle is the interpreter."""
-import json, os, collections
+import os, json, collections
 import vlib, progs
 from vlib import Check, MachineryError
 
@@ -33,6 +33,29 @@ def jmpi_attributable(text, hexbuf, engine):
     return a.status == "ok" and b.status == "ok" and (a.ret, a.buf, a.log) == (b.ret, b.buf, b.log)
 
 
+def sweep_cases(kmax):
+    """Parametric family: a diamond that joins a small constant K with an expression, followed by the same operation on the join and
+    on the expression; K sweeps 0..kmax so that it meets every internal number (value numbers, register and label numbers) an optimiser
+    may confuse a constant with.  Both arms are taken (cond = 0 / 1)."""
+    R, I, M = progs.op_reg, progs.op_imm, progs.op_mem
+    out = []
+    for k in range(kmax + 1):
+        for cond in (0, 1):
+            insns = [progs.ins("mov", R(2), M("i64", 0, 1)), progs.ins("mov", R(3), M("i64", 8, 1)), progs.ins("mov", R(6), M("i64", 16, 1)),
+                     progs.ins("add", R(4), R(2), R(3)),          # x = a + b
+                     progs.ins("mov", R(5), I(k)),                # y = K
+                     progs.br("bf", 8, R(6)),                     # if (cond)
+                     progs.ins("mov", R(5), R(4)),                #   y = x
+                     progs.ins("add", R(7), R(5), I(7)),          # pc 8: z = y + 7
+                     progs.ins("add", R(8), R(4), I(7)),          # w = x + 7
+                     progs.ins("mov", M("i64", 192, 1), R(5)), progs.ins("mov", M("i64", 200, 1), R(7)),
+                     progs.ins("mov", M("i64", 208, 1), R(8)),
+                     {"op": "ret", "s": [R(7)]}]
+            buf = (1000).to_bytes(8, "little") + (234).to_bytes(8, "little") + cond.to_bytes(8, "little")
+            out.append(progs.family_case(insns, 8, buf))
+    return out
+
+
 def run(tier, cases=None, only_engines=None):
     ck = Check(PROP, tier, "model_checking")
     nprog = 720 if tier == "quick" else 6000
@@ -47,6 +70,10 @@ def run(tier, cases=None, only_engines=None):
         ck.setc("states", nstates); ck.setc("transitions", nstates)
     else:
         ck.setc("states", len(cases)); ck.setc("transitions", len(cases))
+    if only_engines is None and tier in ("quick", "thorough") and not os.environ.get("C01_NO_SWEEP") and len(cases) > 100:
+        fam, rf = progs.run_family(sweep_cases(200 if tier == "quick" else 600))
+        cases = cases + fam
+        ck.setc("family_cases", len(fam))
     st = collections.Counter(c["status"] for c in cases)
     undef_why = collections.Counter(c["why"] for c in cases if c["status"] != "done")
     engines = ["interp"] + (only_engines or GEN)
